@@ -71,6 +71,8 @@ static void case_reset(void)
   sim_destroyed           = 0;
   sim_in_destroy          = 0;
   app_ntok                = 0;
+  app_cancel_check_pending = 0;
+  memset(app_cancel_was_pending, 0, sizeof(app_cancel_was_pending));
   app_nact                = 0;
   app_outstanding         = 0;
   app_cb_depth            = 0;
